@@ -158,6 +158,10 @@ class C12(Prop):
             yield Case('transform', ('cutout', spec[:rng.choice([1, 2])], missing, t))
             yield Case('transform', ('movefield', rng.choice(['v', 'a', 'k']), rng.choice([0, 1, 2, 5, -1]), t))
             yield Case('transform', ('cat', missing, rng.choice([None, None, ('v', 'k', 'z')]), (t, t2)))
+            # a later table brings a new field name, and brings it twice
+            t3 = (rng.choice([('z', 'k', 'z'), ('k', 'z', 'z'), ('z', 'z', 'y')]),) + tuple(t2[1:])
+            yield Case('transform', ('cat', missing, None, (t, t3)))
+            yield Case('transform', ('cat', missing, None, (t2, t3, t)))
             yield Case('transform', ('stack', missing, rng.random() < 0.8, rng.random() < 0.8, (t, t2)))
             yield Case('transform', ('annex', missing, (t, t2)))
             yield Case('transform', ('addfield', 'n', rng.choice([('const', 42), ('const', None), ('fn', 0), ('fn', 1),
@@ -170,6 +174,9 @@ class C12(Prop):
             yield Case('transform', ('addrownumbers', rng.choice([1, 0, 5]), rng.choice([1, 2]), 'row', t))
             yield Case('transform', ('rename', rng.choice([(('a', 'b'),), (('a', 'b'), ('v', 'w')), ((0, 'z'), ('a', 'b')),
                                                            (('zz', 'y'),), ((5, 'y'),)]), rng.random() < 0.6, t))
+            # renaming by name reaches every field of that name; a position wins over a name
+            yield Case('transform', ('rename', rng.choice([(('k', 'kk'),), ((0, 'z'), ('k', 'kk')), (('k', 'kk'), (2, 'z')),
+                                                           (('k', 'a'), ('a', 'k'))]), rng.random() < 0.6, t))
             yield Case('transform', ('setheader', ('x', 'y', 'z'), t))
             yield Case('transform', ('extendheader', ('e',), t))
             yield Case('transform', ('pushheader', ('x', 'y', 'z'), t))
@@ -283,7 +290,27 @@ class C12(Prop):
             return False
         rows_in = [tuple(codec.canon(x) for x in r) for r in t[1:]] if nm not in ('cat', 'stack', 'annex') else None
         out = [r[1] for r in impl_obs[1][1:]]
-        if nm in ('rename', 'setheader', 'extendheader', 'prefixheader', 'suffixheader'):
+        if nm == 'rename':
+            spec = dict(case.arg[1])
+            want_hdr = tuple(codec.canon(spec[i] if i in spec else spec[f] if f in spec else f) for i, f in enumerate(t[0]))
+            return out == rows_in and impl_obs[1][0][1] == want_hdr        # a position wins over a name; every field of a name
+        if nm == 'cat' and case.arg[2] is None:
+            # fields of the first table, then every new name once in order of appearance; cells matched by name (the first field
+            # of that name), `missing` where a table or a short row has none; one output row per input row, tables in order
+            missing, tabs = case.arg[1], t
+            outhdr = list(tabs[0][0]) if tabs and len(tabs[0]) else []
+            for tb in tabs[1:]:
+                for h in (tb[0] if len(tb) else ()):
+                    if h not in outhdr:
+                        outhdr.append(h)
+            want = []
+            for tb in tabs:
+                hdr = list(tb[0]) if len(tb) else []
+                for r in tb[1:]:
+                    want.append(tuple(codec.canon(r[hdr.index(h)] if h in hdr and hdr.index(h) < len(r) else missing)
+                                      for h in outhdr))
+            return out == want and impl_obs[1][0][1] == tuple(codec.canon(h) for h in outhdr)
+        if nm in ('setheader', 'extendheader', 'prefixheader', 'suffixheader'):
             return out == rows_in                                   # data rows untouched
         if nm == 'addrownumbers':
             start, step = case.arg[1], case.arg[2]
